@@ -61,22 +61,45 @@ Proof.
     replace (t - p)%nat with (S (t - S p)) by lia. cbn [skipn]. split; [lia|exact H2].
 Qed.
 
-(* a marker found in a cut-off copy is a marker of the whole *)
-Definition stable (s : bytes) : Prop :=
-  forall j n r, marker_at (firstn n (skipn j s)) = Some r -> marker_at (skipn j s) = Some r.
+(* Tameness.  At every position where a marker may begin (the previous byte is CR or LF):
+   (stable) a marker text found in a cut-off copy of the input is a marker of the input -
+            i.e. the line does not begin with marker text followed by a word character -
+   (short)  and a marker text is not longer than the overlap of two search windows. *)
+Definition head_tame (s : bytes) : Prop :=
+  (forall n r, marker_at (firstn n s) = Some r -> marker_at s = Some r)
+  /\ (forall m l, marker_at s = Some (m, l) -> (l <= overlap)%nat).
 
-Lemma stable_tl b s : stable (b :: s) -> stable s.
-Proof. intros H j n r. exact (H (S j) n r). Qed.
+Fixpoint ltame (bol : bool) (s : bytes) : Prop :=
+  match s with
+  | [] => True
+  | b :: s' => (bol = true -> head_tame s) /\ ltame (is_eol b) s'
+  end.
 
-Lemma stable_skipn d s : stable s -> stable (skipn d s).
-Proof. intros H j n r. rewrite !skipn_skipn. exact (H (j + d)%nat n r). Qed.
+Lemma ltame_weaken s : ltame true s -> ltame false s.
+Proof. destruct s as [|b s]; [trivial|]. intros [_ H]. split; [discriminate|exact H]. Qed.
 
-Lemma stable_head s n r : stable s -> marker_at (firstn n s) = Some r -> marker_at s = Some r.
-Proof. intros H. exact (H 0%nat n r). Qed.
+Lemma ltame_skipn : forall d s bol, ltame bol s -> ltame false (skipn d s).
+Proof.
+  induction d as [|d IH]; intros s bol H.
+  - cbn [skipn]. destruct bol; [apply ltame_weaken; exact H|exact H].
+  - destruct s as [|b s]; [exact I|]. cbn [skipn]. destruct H as [_ H]. eapply IH; eauto.
+Qed.
+
+Lemma first_marker_tame : forall s p bol t m l,
+  ltame bol s -> first_marker p bol s = Some (t, m, l) -> (l <= overlap)%nat.
+Proof.
+  induction s as [|b s IH]; intros p bol t m l Ht H; cbn [first_marker] in H; [discriminate|].
+  destruct Ht as [Hh Ht].
+  destruct bol.
+  - destruct (marker_at (b :: s)) as [[m' l']|] eqn:E.
+    + inversion H; subst. destruct (Hh eq_refl) as [_ Hs]. eapply Hs; eauto.
+    + eapply IH; eauto.
+  - eapply IH; eauto.
+Qed.
 
 (* the search in the first L bytes finds the first marker of the whole iff it fits *)
 Lemma first_marker_trunc : forall s L p bol,
-  stable s ->
+  ltame bol s ->
   first_marker p bol (firstn L s) =
   match first_marker p bol s with
   | Some (t, m, l) => if Nat.leb (t - p + l) L then Some (t, m, l) else None
@@ -98,7 +121,8 @@ Proof.
            destruct (Nat.leb_spec (p - p + l) (S L)) as [Hfit|Hno].
            ++ rewrite (marker_at_firstn _ _ _ _ Em) by lia. reflexivity.
            ++ destruct (marker_at (firstn (S L) (b :: s))) as [[m' l']|] eqn:Et.
-              { exfalso. pose proof (stable_head _ _ _ Hst Et) as Eg. rewrite Em in Eg. inversion Eg; subst.
+              { exfalso. destruct Hst as [Hh _]. destruct (Hh eq_refl) as [Hs _].
+                pose proof (Hs _ _ Et) as Eg. rewrite Em in Eg. inversion Eg; subst.
                 apply marker_at_text in Et as [[_ Hlen] _]. rewrite firstn_length in Hlen. lia. }
               (* the rest of the cut-off input lies inside the marker text: no end-of-line *)
               destruct (marker_at_text _ _ _ Em) as [[Hl1 Hl2] Hne].
@@ -110,12 +134,12 @@ Proof.
               unfold noeol in Hb. apply negb_true_iff in Hb. rewrite Hb.
               apply first_marker_noeol. exact Hrest.
         -- destruct (marker_at (firstn (S L) (b :: s))) as [[m' l']|] eqn:Et.
-           { pose proof (stable_head _ _ _ Hst Et) as Eg. congruence. }
-           rewrite IH by (eapply stable_tl; eauto).
+           { destruct Hst as [Hh _]. destruct (Hh eq_refl) as [Hs _]. pose proof (Hs _ _ Et) as Eg. congruence. }
+           rewrite IH by (apply Hst).
            destruct (first_marker (S p) (is_eol b) s) as [[[t m] l]|] eqn:E; [|reflexivity].
            apply first_marker_ge in E.
            destruct (Nat.leb_spec (t - S p + l) L), (Nat.leb_spec (t - p + l) (S L)); try reflexivity; lia.
-      * rewrite IH by (eapply stable_tl; eauto).
+      * rewrite IH by (apply Hst).
         destruct (first_marker (S p) (is_eol b) s) as [[[t m] l]|] eqn:E; [|reflexivity].
         apply first_marker_ge in E.
         destruct (Nat.leb_spec (t - S p + l) L), (Nat.leb_spec (t - p + l) (S L)); try reflexivity; lia.
@@ -173,8 +197,7 @@ Qed.
 Section Windows.
   Variable file : bytes.
   (* no marker text is longer than the overlap of two search windows *)
-  Hypothesis Hshort : forall j m l, marker_at (skipn j file) = Some (m, l) -> (l <= overlap)%nat.
-  Hypothesis Hstable : stable file.
+  Hypothesis Htame : ltame false file.
 
   Definition q (st : sstate) : nat := (st_base st + st_pos st)%nat.
   Definition gnext (p : nat) := first_marker 0 false (skipn p file).
@@ -195,8 +218,7 @@ Section Windows.
 
   Lemma gnext_short p t m l : gnext p = Some (t, m, l) -> (l <= overlap)%nat.
   Proof.
-    unfold gnext. intros H. apply first_marker_len in H as [_ H]. rewrite Nat.sub_0_r, skipn_skipn in H.
-    eapply Hshort; eauto.
+    unfold gnext. intros H. eapply first_marker_tame; [|exact H]. eapply ltame_skipn; exact Htame.
   Qed.
 
   Lemma gnext_skip p d :
@@ -225,7 +247,7 @@ Section Windows.
   Proof.
     induction fuel as [|fuel IH]; intros st (Hpu & Hub & Hbl & Hdisj) Hfuel; [unfold mu in Hfuel; lia|].
     cbn [win_find]. rewrite slice_eq.
-    rewrite first_marker_trunc by (apply stable_skipn; exact Hstable).
+    rewrite first_marker_trunc by (eapply ltame_skipn; exact Htame).
     fold (gnext (q st)).
     pose proof buf_size_val as HB. pose proof overlap_val as HO.
     destruct (gnext (q st)) as [[[t m] l]|] eqn:G.
@@ -308,13 +330,14 @@ Section Windows.
   Proof. unfold mu. destruct (Nat.eqb _ 0), (Nat.eqb (st_used st) 0); lia. Qed.
 
   (* the whole scan loop *)
-  Lemma win_scan_spec : forall fuel st,
+  Lemma win_scan_spec ffuel : (4 * length file + 4 <= ffuel)%nat -> forall fuel st,
     inv st -> (length file - q st < fuel)%nat ->
-    win_scan false fuel file st = ideal_scan (q st) false (skipn (q st) file).
+    win_scan false fuel ffuel file st = ideal_scan (q st) false (skipn (q st) file).
   Proof.
-    induction fuel as [|fuel IH]; intros st Hinv Hfuel; [lia|].
+    intros Hff. induction fuel as [|fuel IH]; intros st Hinv Hfuel; [lia|].
     cbn [win_scan]. rewrite ideal_scan_next. fold (gnext (q st)).
-    pose proof (win_find_spec (4 * length file + 4) st Hinv (mu_bound st)) as W.
+    assert (Hmu : (mu st <= ffuel)%nat) by (pose proof (mu_bound st); lia).
+    pose proof (win_find_spec ffuel st Hinv Hmu) as W.
     destruct (gnext (q st)) as [[[t m] l]|] eqn:G.
     - destruct W as (st' & -> & Hq' & Hi'). f_equal.
       rewrite IH; [rewrite Hq', skipn_skipn; f_equal; f_equal; lia|exact Hi'|].
@@ -422,28 +445,33 @@ Proof.
 Qed.
 
 (* ---------- the theorem ---------- *)
-(* a file is tame when no marker text is longer than the overlap of the search windows and
-   no cut turns a non-marker into a marker *)
-Definition tame (data : bytes) : Prop :=
-  (forall j m l, marker_at (skipn j data) = Some (m, l) -> (l <= overlap)%nat) /\ stable data.
+(* a file is tame when it is tame at every position that follows an end-of-line *)
+Definition tame (data : bytes) : Prop := ltame false data.
 
 Theorem windows_eq_ideal_lemma data hs h v :
   find_start data = Some (hs, h, v) -> (h <= buf_size)%nat -> tame data ->
   scan_windows data = scan_ideal data.
 Proof.
-  intros Hf Hh [Hshort Hst]. unfold scan_windows, scan_ideal. rewrite Hf.
-  destruct (start_state_spec data hs h v Hf Hh) as (st & -> & Hq & Hinv). fold st0.
-  f_equal. rewrite (win_scan_spec data Hshort Hst) by (try exact Hinv; lia).
+  intros Hf Hh Ht. unfold scan_windows, scan_ideal. rewrite Hf.
+  change {| st_base := 0; st_pos := 0; st_used := 0 |} with st0.
+  destruct (start_state_spec data hs h v Hf Hh) as (st & E & Hq & Hinv). rewrite E.
+  f_equal. rewrite (win_scan_spec data Ht _ (le_n _)) by (try exact Hinv; lia).
   rewrite Hq. reflexivity.
 Qed.
 
 (* every prefix of a tame file is tame *)
-Lemma tame_firstn data n : tame data -> tame (firstn n data).
+Lemma ltame_firstn : forall s n bol, ltame bol s -> ltame bol (firstn n s).
 Proof.
-  intros [Hshort Hst]. split.
-  - intros j m l H. rewrite skipn_firstn in H. apply (Hst j (n - j)%nat) in H. eapply Hshort; eauto.
-  - intros j k r H. rewrite skipn_firstn in *. rewrite firstn_firstn in H.
-    pose proof (Hst j _ _ H) as G. destruct r as [m l].
+  induction s as [|b s IH]; intros n bol H; [rewrite firstn_nil; exact I|].
+  destruct n as [|n]; [exact I|]. destruct H as [Hh Ht].
+  change (firstn (S n) (b :: s)) with (b :: firstn n s). split; [|apply IH; exact Ht].
+  intros Hb. destruct (Hh Hb) as [Hs Hl]. change (b :: firstn n s) with (firstn (S n) (b :: s)).
+  split.
+  - intros k [m l] E. rewrite firstn_firstn in E. pose proof (Hs _ _ E) as G.
     apply marker_at_firstn; [exact G|].
-    apply marker_at_text in H as [[_ H] _]. rewrite firstn_length in H. lia.
+    apply marker_at_text in E as [[_ E] _]. rewrite firstn_length in E. lia.
+  - intros m l E. apply Hs in E. eapply Hl; eauto.
 Qed.
+
+Lemma tame_firstn data n : tame data -> tame (firstn n data).
+Proof. apply ltame_firstn. Qed.
